@@ -18,8 +18,12 @@ def run(tier: str, seed: int) -> Tuple[Stats, str, List[str], Dict[str, Any]]:
     stats = Stats()
     depth = 3 if tier == "quick" else 4
     logs: Dict[str, list] = {}
-    cachesearch.run_search(ID, tier, depth, stats, CONFIGS if tier == "quick" else CONFIGS, level_logs=logs,
-                           max_states=None if tier == "quick" else 300000)
+    cachesearch.run_search(ID, "quick", depth, stats, CONFIGS, level_logs=logs, max_states=3_000_000)
+    if tier != "quick":
+        wide: Dict[str, list] = {}
+        cachesearch.run_search(ID, "thorough", 3, stats, ["passive", "remove:RX", "add:XR"], level_logs=wide,
+                               max_states=2_000_000)
+        stats.notes["levels_wide_alphabet"] = wide
     s = cachesearch.Search(ID, tier)
     stats.notes["levels"] = logs
     stats.notes["alphabet_datagrams"] = len(s.dgrams)
